@@ -21,7 +21,7 @@ from .. import facts as F
 from .. import census as CEN
 from ..models import len_term
 from . import serve_model as SM
-from .common import where, short, impl_fn, inherent_fn, aggregates, calls_named, cons_zone, boolish, helper_inline
+from .common import where, short, impl_fn, inherent_fn, aggregates, calls_named, cons_zone, boolish, helper_inline, known_empty
 from .multipart import buf_pieces
 
 CONFIGS_QUICK = ["dir"]
@@ -250,10 +250,8 @@ def r3_validator_iter(ctx, R, outs, PATH):
                 absf = v
             if k in ("eq", "notin") and isinstance(t, tuple) and t[0] == "proj" and t[1] == PATH and isinstance(t[2], tuple) and t[2][:3] == ("cidx", 0, False):
                 absf = int(v == 47) if k == "eq" else (0 if 47 in v else absf)
-            if k == "eq" and isinstance(t, tuple) and t[0] == "binop" and t[1] in ("Ge", "Lt", "Eq", "Ne") and "len" in repr(t[2])[:20] and absf is None:
-                # an empty path cannot start with '/': the length test of the slice pattern failing means "not absolute"
-                if (t[1] == "Ge" and t[3] == const(1) and v == 0) or (t[1] == "Eq" and t[3] == const(0) and v == 1):
-                    absf = 0
+        if absf is None and known_empty(o.cons.log, PATH):
+            absf = 0        # an empty path cannot start with '/': the length test of the slice pattern failing means "not absolute"
         anys = [e for e in o.events if e["k"] == "call" and (e["callee"].get("path") or "").endswith("Iterator::any")]
         bad = []
         for e in anys:
@@ -270,14 +268,16 @@ def r3_validator_iter(ctx, R, outs, PATH):
             body = MM.closure_body(e["args"][1])
             tab = {}
             if body and body in ctx.facts.bodies:
-                nref = len(ctx.facts.bodies[body]["locals"][2]["s"]) - len(ctx.facts.bodies[body]["locals"][2]["s"].lstrip("&"))
+                is_fn = isinstance(e["args"][1], tuple) and e["args"][1] and e["args"][1][0] == "fn"     # a fn item instead of a closure
+                pty = ctx.facts.bodies[body]["locals"][1 if is_fn else 2]["s"]
+                nref = len(pty) - len(pty.lstrip("&"))
                 pxx = P.PX(ctx.facts, models=MM.install(None), inline=lambda c, d: True)
                 for s_ in samples:
                     a = ("bytes", s_)
                     for _ in range(nref):
                         a = ("refconst", a)
                     try:
-                        vals = {x.value for x in pxx.run(body, args=[e["args"][1], a]) if x.kind == "return"}
+                        vals = {x.value for x in pxx.run(body, args=([a] if is_fn else [e["args"][1], a])) if x.kind == "return"}
                     except Exception:
                         vals = set()
                     tab[s_] = next(iter(vals))[1] if len(vals) == 1 and is_const(next(iter(vals))) else None
@@ -407,6 +407,8 @@ def r4_lookup(ctx, R, opener):
                     blocking_defs.add(clo[2])
                     for name, t in clo[4]:
                         if boolish(ctx, _capture_type(ctx, clo[2], name)):
+                            if t == ("field", ("deref", ("param", 1)), R["auto_f"]) or (isinstance(t, tuple) and t[:1] == ("field",) and t[2] == R["auto_f"]):
+                                continue        # a plain copy of the directory's own setting (e.g. to fill the node's field): not the lookup switch
                             sg_caps.add(name)
                             s = repr(t)
                             # auto_gzip && should_gzip(hdrs): the value is the should_gzip call on paths where auto_gzip is known true, const 0 otherwise
@@ -419,6 +421,17 @@ def r4_lookup(ctx, R, opener):
         ctx.ok("C19.R4", ".gz lookup enabled iff auto_gzip and should_gzip(request headers)")
     else:
         ctx.violation("C19.R4", "C19.R4|condition", "UNRECOGNISED: the .gz lookup condition is not `auto_gzip && should_gzip(headers)`")
+    if len(sg_caps) > 1:
+        # several two-valued captures: the lookup switch is the one that carries the negotiation result on some path
+        with_call = set()
+        for o in outs:
+            for e in o.events:
+                if e["k"] == "call" and e["callee"].get("path") == "tokio::task::spawn_blocking" and is_agg(e["args"][0]):
+                    for name, t_ in e["args"][0][4]:
+                        if name in sg_caps and isinstance(t_, tuple) and t_[0] == "call" and t_[1].split("::")[-1] == "should_gzip":
+                            with_call.add(name)
+        if with_call:
+            sg_caps = with_call
     blocking = sorted(blocking_defs)
     if len(blocking) != 1 or len(sg_caps) != 1:
         ctx.violation("C19.R4", "C19.R4|closure", "UNRECOGNISED blocking closure (closures handed to spawn_blocking: %s; two-valued captures: %s)" % (blocking, sorted(sg_caps)))
@@ -426,15 +439,58 @@ def r4_lookup(ctx, R, opener):
     sg_cap = next(iter(sg_caps))
     node_flags = [f["name"] for f in ctx.facts.adts[R["node"]]["variants"][0]["fields"] if boolish(ctx, f["ty"])]
     # crate-local helpers of the lookup (e.g. an extracted "try the .gz sibling" method) are expanded; the opener stays a call
-    outs = ctx.px(blocking[0], inline=helper_inline(ctx, own=(R["dir"], R["node"]), never=(opener,)), key="helpers")
+    # captures that hold the same structured value (a buffer built before the hand-off, a saved length) on every path of the
+    # caller are analysed with that value; everything else stays a symbolic capture
+    cap_vals = {}
+    clo0 = None
+    for o in outs:
+        for e in o.events:
+            if e["k"] == "call" and e["callee"].get("path") == "tokio::task::spawn_blocking" and is_agg(e["args"][0]):
+                clo0 = e["args"][0]
+                for name, t_ in clo0[4]:
+                    cap_vals.setdefault(name, set()).add(t_)
+    validated = set()
+    for o in outs:
+        for e in o.events:
+            if e["k"] == "call" and e["callee"].get("res_path") == R["validate"]:
+                a_ = e["args"][0]
+                validated.add(a_)
+                if isinstance(a_, tuple) and a_[0] == "ref" and isinstance(a_[1], tuple) and a_[1][0] == "H" and not a_[2]:
+                    validated.add(("deref", a_[1][1]))       # a reference to the pointee of the captured `&str`
+    seeded = {}
+    for name, vs in cap_vals.items():
+        if len(vs) == 1 and name != sg_cap:
+            v_ = next(iter(vs))
+            if isinstance(v_, tuple) and v_[0] in ("appended", "newbuf", "len", "reserved"):
+                seeded[name] = v_
+    args = None
+    if seeded:
+        args = [clo0[:4] + (tuple((n_, seeded.get(n_, ("field", ("param", 1), n_))) for n_, _ in clo0[4]),) + clo0[5:]]
+        ctx.info("C19.R4: blocking closure analysed with the caller's value for captures %s" % sorted(seeded))
+    outs = ctx.px(blocking[0], inline=helper_inline(ctx, own=(R["dir"], R["node"]), never=(opener,)),
+                  key=("helpers", tuple(sorted(seeded))), args=args)
     # which of the node's two flags says "this is the .gz variant": the one that is not a copy of the directory's setting
     gz_names = set()
+    const_vals = {}
     for o in outs:
         if o.kind == "return" and is_agg(o.value) and o.value[3] == "Ok" and is_agg(agg_get(o.value, "0")):
             nd = agg_get(o.value, "0")
             for fname in node_flags:
                 if is_const(agg_get(nd, fname)):
                     gz_names.add(fname)
+                    const_vals.setdefault(fname, set()).add(agg_get(nd, fname)[1])
+    if len(gz_names) > 1:
+        # several constant flags (e.g. the directory's setting mapped through a small enum): the gzip flag is the one that
+        # takes both values across the lookup rows of one and the same directory setting
+        both = {f for f in gz_names if len(const_vals.get(f, ())) == 2}
+        auto_known = {}
+        for o in outs:
+            if o.kind == "return" and is_agg(o.value) and o.value[3] == "Ok" and is_agg(agg_get(o.value, "0")):
+                nd = agg_get(o.value, "0")
+                av = tuple(sorted((fmt_term(k)[:80], v) for k, v in o.cons.known.items() if R["auto_f"] in fmt_term(k)[:200]))
+                for f in both:
+                    auto_known.setdefault(f, {}).setdefault(av, set()).add(agg_get(nd, f)[1])
+        gz_names = {f for f in both if any(len(vs) == 2 for vs in auto_known.get(f, {}).values())} or both
     if len(gz_names) != 1:
         ctx.violation("C19.R4", "C19.R4|node-flags", "UNRECOGNISED: the node's gzip flag (a constant per lookup row) is not found uniquely among %s" % node_flags)
         return
@@ -463,8 +519,11 @@ def r4_lookup(ctx, R, opener):
             bv, pth = canon_slice(a)
             base, pieces = buf_pieces(bv)
             tail = []
-            for pc in pieces:
-                if pc[0] == "slice" and isinstance(pc[1], tuple) and pc[1][0] in ("bytes", "str"):
+            for k_, pc in enumerate(pieces):
+                if seeded and k_ == 0 and isinstance(base, tuple) and base[0] in ("newbuf", "reserved") and pc[0] == "slice" \
+                        and any(pc[1] == a_ or repr(a_) in repr(pc[1]) for a_ in validated):
+                    tail.append("")        # the buffer (built by the caller) starts with the validated path's bytes
+                elif pc[0] == "slice" and isinstance(pc[1], tuple) and pc[1][0] in ("bytes", "str"):
                     tail.append(pc[1][1])
                 elif pc[0] == "byte" and is_const(pc[1]):
                     tail.append(chr(pc[1][1]))
